@@ -230,7 +230,8 @@ class Terms:
             if not isinstance(item, (Instance, UninhabitedType)):
                 return None           # Type[tuple]/Type[None]/…: constructors the model does not describe
             if isinstance(item, Instance) and (item.type.metaclass_type is not None or item.type.is_abstract
-                                               or item.type.fullname.startswith("builtins.")):
+                                               or (item.type.fullname.startswith("builtins.")
+                                                   and item.type.fullname != "builtins.object")):
                 return None           # metaclasses / overloaded constructors are outside the model
             a = self.to_term(item)
             return None if a is None else f"(Y {a})"
